@@ -352,9 +352,9 @@ def find_urls(data: bytes) -> list[Node]:
             if close > -1:
                 end = start + close
                 group = group[:close]
-        if not is_url(group):
-            continue
         url, obfuscation = normalize_percent_encoding(group)
+        if not is_url(url):  # validate the text that is reported and parsed, i.e. after normalisation
+            continue
         out.append(
             Node(
                 URL_TYPE,
